@@ -201,7 +201,7 @@ def plan():
             for gi, gsym in enumerate(groups):
                 quick = (gi == 0 and not audio) or (gi == 2 and audio and coll in ("evaluation_set", "annotation_project"))
                 obs.append(Ob("%s-%s-structure%d" % (coll, "dir" if audio else "nodir", gi), ob_roundtrip, "real", 900,
-                              dict(coll=coll, g=RICH, gsym=gsym, nbits=0, nnums=4, rest=True, audio_dir=audio,
+                              dict(coll=coll, g=RICH, gsym=gsym, nbits=0, nnums=(4 if coll in ("recording_set", "dataset") else 1), rest=True, audio_dir=audio,
                                    geom=(gi + COLLS.index(coll)) % 9),
                               q if quick else ("thorough",), twins=("any",), twin_timeout=300))
         # (2) presence flags: every window of consecutive flags, all combinations inside the window,
@@ -216,7 +216,7 @@ def plan():
             if coll == "annotation_project" and skip < nflags("annotation_set"):
                 continue
             obs.append(Ob("%s-flags%02d+%d-rich" % (coll, skip, size), ob_roundtrip, "real", 900,
-                          dict(coll=coll, g=RICH, gsym=[], nbits=size, nnums=2, skip=skip, rest=True, audio_dir=False,
+                          dict(coll=coll, g=RICH, gsym=[], nbits=size, nnums=0, skip=skip, rest=True, audio_dir=False,
                                geom=(skip // 4) % 9), ("quick",), twins=("any",), twin_timeout=300))
         for (skip, size) in windows(coll, 6, 0):
             for rest in (True, False):
